@@ -41,6 +41,9 @@ impl<T> Deref for CachePadded<T> {
 pub struct SpscRing<T> {
     buffer: Box<[UnsafeCell<MaybeUninit<T>>]>,
     capacity: usize,
+    /// `buffer.len() - 1`. The slot count is `capacity` rounded up to a power of two so that
+    /// `index & mask` stays consistent when the `usize` indices wrap around.
+    mask: usize,
     head: CachePadded<AtomicUsize>,
     tail: CachePadded<AtomicUsize>,
 }
@@ -52,13 +55,15 @@ unsafe impl<T: Send> Sync for SpscRing<T> {}
 impl<T> SpscRing<T> {
     pub fn with_capacity(capacity: usize) -> Self {
         assert!(capacity > 0, "SpscRing capacity must be > 0");
-        let mut v = Vec::with_capacity(capacity);
-        for _ in 0..capacity {
+        let slots = capacity.next_power_of_two();
+        let mut v = Vec::with_capacity(slots);
+        for _ in 0..slots {
             v.push(UnsafeCell::new(MaybeUninit::uninit()));
         }
         Self {
             buffer: v.into_boxed_slice(),
             capacity,
+            mask: slots - 1,
             head: CachePadded::new(AtomicUsize::new(0)),
             tail: CachePadded::new(AtomicUsize::new(0)),
         }
@@ -97,7 +102,7 @@ impl<T> SpscRing<T> {
             return Err(value);
         }
 
-        let idx = tail % self.capacity;
+        let idx = tail & self.mask;
         #[cfg(rustrtc_verif)]
         crate::verif_hooks::media::verif_yield(crate::verif_hooks::media::point::PUSH_WRITE_SLOT);
         // Safety: producer is the only writer for this slot, and slot is empty because queue isn't full.
@@ -122,7 +127,7 @@ impl<T> SpscRing<T> {
             return None;
         }
 
-        let idx = head % self.capacity;
+        let idx = head & self.mask;
         #[cfg(rustrtc_verif)]
         crate::verif_hooks::media::verif_yield(crate::verif_hooks::media::point::POP_READ_SLOT);
         // Safety: consumer is the only reader for this slot, and slot is initialized because queue isn't empty.
@@ -139,7 +144,7 @@ impl<T> Drop for SpscRing<T> {
         let mut head = self.head.load(Ordering::Relaxed);
         let tail = self.tail.load(Ordering::Relaxed);
         while head != tail {
-            let idx = head % self.capacity;
+            let idx = head & self.mask;
             // Safety: remaining queued elements are initialized and must be dropped.
             unsafe {
                 (*self.buffer[idx].get()).assume_init_drop();
